@@ -347,6 +347,27 @@ def replay_in_fresh_process(prop, path, timeout=300):
 # ---------------------------------------------------------------------------------------------
 
 
+T_START = time.time()
+
+
+def hard_deadline():
+    """Wall-clock instant by which a check should have printed its verdict (the registered commands
+    run under `timeout 900` / `timeout 3400`); minimisation budgets shrink as it approaches."""
+    tier = os.environ.get("VERIF_TIER_EFFECTIVE", "quick")
+    try:
+        limit = float(os.environ.get("VERIF_HARD_LIMIT_S", ""))
+    except ValueError:
+        limit = 780.0 if tier == "quick" else 3250.0
+    return T_START + limit
+
+
+def emit(line):
+    """Verdict lines are printed the moment they are established (a later time-out must not lose
+    a violation that was already found, minimised and replayed)."""
+    print(line)
+    sys.stdout.flush()
+
+
 def report(prop, engine, agg, shrink_budget=20.0, max_shrunk=6):
     """Turn the violations of a batch into KNOWN-FINDING / VIOLATION lines: match known findings,
     minimise, write the replay file, replay it in a fresh process. -> dict"""
@@ -367,9 +388,12 @@ def report(prop, engine, agg, shrink_budget=20.0, max_shrunk=6):
             continue
         trace = v["trace"]
         tests = 0
-        if n_viol < max_shrunk:
+        remaining = hard_deadline() - time.time()
+        todo = max(1, len(agg.violations) - k)
+        budget_now = max(0.0, min(shrink_budget, (remaining - 60.0) / todo - 5.0))
+        if n_viol < max_shrunk and budget_now > 1.0:
             try:
-                trace, tests = shrink(engine, trace, sig, shrink_budget)
+                trace, tests = shrink(engine, trace, sig, budget_now)
             except Exception:
                 harness.append("shrinker failed for %s: %s" % (sig, traceback.format_exc()))
         out = engine.execute(trace)
@@ -385,9 +409,9 @@ def report(prop, engine, agg, shrink_budget=20.0, max_shrunk=6):
         n_viol += 1
         reported.append({"sig": sig, "message": vs[0]["message"], "replay": path, "runs": v["count"],
                          "first_index": v["index"], "shrink_tests": tests})
-        lines.append("violation: %s -- %s (seen in %d run(s), first at run index %d, minimised with %d re-executions)"
-                     % (sig, vs[0]["message"], v["count"], v["index"], tests))
-        lines.append("VIOLATION property=%s replay=%s" % (prop, path))
+        emit("violation: %s -- %s (seen in %d run(s), first at run index %d, minimised with %d re-executions)"
+             % (sig, vs[0]["message"], v["count"], v["index"], tests))
+        emit("VIOLATION property=%s replay=%s" % (prop, path))
     # one KNOWN-FINDING line per listed finding that was observed
     for what, g in sorted(known_groups.items()):
         lines.insert(0, "KNOWN-FINDING: property=%s %s [%d signature(s), %d observation(s), e.g. %s]" %
